@@ -253,6 +253,10 @@ def check(args):
     results = {}
     info = {"repo_head": ov_mod.git_head(REPO), "tier": tier, "seed": seed, "property": prop}
     try:
+        # only the harness files that hold selected harnesses are appended, so that a harness
+        # file that no longer compiles against a modified tree cannot break unrelated properties
+        used = set(h.file for h in sel)
+        files = [f for f in files if f["path"] in used]
         ov, src_hash, nrw = ov_mod.build_overlay(scratch, files, known_keys, declared_keys)
         info["repo_src_sha256"] = src_hash
         info["collections_rewrites"] = nrw
@@ -392,6 +396,9 @@ def check(args):
                 else:
                     verdict.inconclusive.append("%s: solver counterexample did not reproduce natively: %s" % (
                         h.name, rep.get("why")))
+        if prop == "C10" and not args.only:
+            from c10_engine import run_c10
+            run_c10(ov, scratch, info, known, known_keys, tier, results, verdict, sel)
         wall = time.time() - t_start
         if not args.no_evidence:
             write_evidence(prop, tier, seed, sel, results, verdict, info, wall, known)
